@@ -159,6 +159,205 @@ def int_kernel(name, params, stmts, inputs=None, result=None):
     return 'Definition %s %s : Z := %s.' % (name, args, body)
 
 
+# ---- T1c: pure kernels over integers, booleans, strings and lists of strings/integers, translated statement by statement (fail-closed) ----
+# A typed extension of T1b.  Types: 'Z', 'bool', 'string', 'list string', 'list Z'.  The environment maps a Python name - or the source text of an
+# expression declared as an input, e.g. 'exitcodes.FAILURE' or 'algs.ssh2kex.client.encryption' - to (Coq term, type).
+# Expressions: constants; names; declared inputs; + - * // % >> << & | ^ and unary - on Z; + on strings; and/or/not; comparisons == != < <= > >= ;
+# `x in (lit, ...)`, `x in <list variable>` and their negations; `a if c else b`; `s.startswith(lit | tuple)`, `s.endswith(lit | tuple)`;
+# `len(x)`; `l.index(x)` and `l[i]` for lists of integers (src_zindex / src_znth, defined below: `index` of an absent value yields the length,
+# an index outside the list yields 0 - Python raises in both cases, so tie lemmas state them under the guard that excludes the exception).
+# Statements: assignments, augmented assignments, if/elif/else blocks that only assign, if-blocks ending in `return`, `return`.
+T1C_PRELUDE = [
+    'Fixpoint src_zindex (x : Z) (l : list Z) : Z := match l with [] => 0 | y :: r => if x =? y then 0 else 1 + src_zindex x r end.',
+    'Definition src_znth (l : list Z) (i : Z) : Z := nth (Z.to_nat i) l 0.',
+]
+
+
+def _lits(n):
+    """a string constant or a tuple/list of string constants -> list of str"""
+    if isinstance(n, ast.Constant) and isinstance(n.value, str):
+        return [n.value]
+    if isinstance(n, (ast.Tuple, ast.List)) and n.elts and all(isinstance(e, ast.Constant) and isinstance(e.value, str) for e in n.elts):
+        return [e.value for e in n.elts]
+    return None
+
+
+def _texpr(n, env):
+    key = ast.unparse(n)
+    if key in env and not isinstance(n, ast.Name):
+        return env[key]
+    if isinstance(n, ast.Constant):
+        if isinstance(n.value, bool):
+            return ('true' if n.value else 'false', 'bool')
+        if isinstance(n.value, int):
+            return ('(%d)' % n.value, 'Z')
+        if isinstance(n.value, str):
+            return (cstr(n.value), 'string')
+    if isinstance(n, ast.Name):
+        need(n.id in env, 'kernel: unknown name %r' % n.id)
+        return env[n.id]
+    if isinstance(n, ast.UnaryOp) and isinstance(n.op, ast.USub):
+        e, t = _texpr(n.operand, env)
+        need(t == 'Z', 'kernel: unary minus on %s' % t)
+        return ('(- %s)' % e, 'Z')
+    if isinstance(n, ast.UnaryOp) and isinstance(n.op, ast.Not):
+        e, t = _texpr(n.operand, env)
+        need(t == 'bool', 'kernel: not on %s' % t)
+        return ('(negb %s)' % e, 'bool')
+    if isinstance(n, ast.BinOp):
+        (a, ta), (b, tb) = _texpr(n.left, env), _texpr(n.right, env)
+        if isinstance(n.op, ast.Add) and ta == tb == 'string':
+            return ('(%s ++ %s)%%string' % (a, b), 'string')
+        ops = {ast.Add: '(%s + %s)', ast.Sub: '(%s - %s)', ast.Mult: '(%s * %s)', ast.FloorDiv: '(%s / %s)', ast.Mod: '(%s mod %s)',
+               ast.RShift: '(Z.shiftr %s %s)', ast.LShift: '(Z.shiftl %s %s)', ast.BitAnd: '(Z.land %s %s)', ast.BitOr: '(Z.lor %s %s)', ast.BitXor: '(Z.lxor %s %s)'}
+        need(type(n.op) in ops and ta == tb == 'Z', 'kernel: operator %s on %s, %s' % (type(n.op).__name__, ta, tb))
+        return (ops[type(n.op)] % (a, b), 'Z')
+    if isinstance(n, ast.BoolOp):
+        parts = [_texpr(v, env) for v in n.values]
+        need(all(t == 'bool' for _, t in parts), 'kernel: and/or over non-booleans: %s' % key[:80])
+        return ('(' + (' || ' if isinstance(n.op, ast.Or) else ' && ').join(e for e, _ in parts) + ')', 'bool')
+    if isinstance(n, ast.IfExp):
+        (c, tc), (a, ta), (b, tb) = _texpr(n.test, env), _texpr(n.body, env), _texpr(n.orelse, env)
+        need(tc == 'bool' and ta == tb, 'kernel: conditional expression types %s / %s / %s' % (tc, ta, tb))
+        return ('(if %s then %s else %s)' % (c, a, b), ta)
+    if isinstance(n, ast.Compare):
+        need(len(n.ops) == 1, 'kernel: chained comparison %s' % key[:80])
+        op, rhs = n.ops[0], n.comparators[0]
+        if isinstance(op, (ast.In, ast.NotIn)):
+            a, ta = _texpr(n.left, env)
+            ls = _lits(rhs) if isinstance(rhs, (ast.Tuple, ast.List)) else None
+            if ls is not None:
+                need(ta == 'string', 'kernel: membership of a %s in a tuple of strings' % ta)
+                r = '(mem %s %s)' % (a, cstrs(ls))
+            else:
+                b, tb = _texpr(rhs, env)
+                need((ta, tb) in (('string', 'list string'), ('Z', 'list Z')), 'kernel: membership %s in %s' % (ta, tb))
+                r = '(mem %s %s)' % (a, b) if ta == 'string' else '(existsb (Z.eqb %s) %s)' % (a, b)
+            return (r if isinstance(op, ast.In) else '(negb %s)' % r, 'bool')
+        (a, ta), (b, tb) = _texpr(n.left, env), _texpr(rhs, env)
+        need(ta == tb, 'kernel: comparison of %s with %s: %s' % (ta, tb, key[:80]))
+        if isinstance(op, (ast.Eq, ast.NotEq)):
+            eqs = {'Z': '(%s =? %s)', 'string': '(String.eqb %s %s)', 'bool': '(Bool.eqb %s %s)'}
+            need(ta in eqs, 'kernel: equality on %s' % ta)
+            r = eqs[ta] % (a, b)
+            return (r if isinstance(op, ast.Eq) else '(negb %s)' % r, 'bool')
+        ops = {ast.Lt: '(%s <? %s)', ast.LtE: '(%s <=? %s)', ast.Gt: '(%s >? %s)', ast.GtE: '(%s >=? %s)'}
+        need(type(op) in ops and ta == 'Z', 'kernel: comparison %s on %s' % (type(op).__name__, ta))
+        return (ops[type(op)] % (a, b), 'bool')
+    if isinstance(n, ast.Call):
+        f = n.func
+        if isinstance(f, ast.Attribute) and f.attr in ('startswith', 'endswith') and len(n.args) == 1 and not n.keywords:
+            s, ts = _texpr(f.value, env)
+            ls = _lits(n.args[0])
+            need(ts == 'string' and ls is not None, 'kernel: %s with a non-literal argument' % f.attr)
+            fn = 'starts_with' if f.attr == 'startswith' else 'ends_with'
+            return ('(' + ' || '.join('%s %s %s' % (fn, cstr(x), s) for x in ls) + ')', 'bool')
+        if isinstance(f, ast.Attribute) and f.attr == 'index' and len(n.args) == 1 and not n.keywords:
+            (l, tl), (x, tx) = _texpr(f.value, env), _texpr(n.args[0], env)
+            need(tl == 'list Z' and tx == 'Z', 'kernel: index on %s' % tl)
+            return ('(src_zindex %s %s)' % (x, l), 'Z')
+        if isinstance(f, ast.Name) and f.id == 'len' and len(n.args) == 1:
+            x, tx = _texpr(n.args[0], env)
+            need(tx in ('string', 'list string', 'list Z'), 'kernel: len of %s' % tx)
+            return ('(Z.of_nat (%s %s))' % ('String.length' if tx == 'string' else 'List.length', x), 'Z')
+    if isinstance(n, ast.Subscript) and not isinstance(n.slice, ast.Slice):
+        (l, tl), (i, ti) = _texpr(n.value, env), _texpr(n.slice, env)
+        need(tl == 'list Z' and ti == 'Z', 'kernel: subscript of %s by %s' % (tl, ti))
+        return ('(src_znth %s %s)' % (l, i), 'Z')
+    need(False, 'kernel: expression %s' % ast.dump(n)[:120])
+
+
+def _assigned(stmts):
+    """names assigned by a block made of assignments and nested assign-only ifs (None when the block has anything else)"""
+    names = []
+    for st in stmts:
+        if isinstance(st, (ast.Assign, ast.AugAssign)):
+            t = st.targets[0] if isinstance(st, ast.Assign) else st.target
+            if not isinstance(t, ast.Name) or (isinstance(st, ast.Assign) and len(st.targets) != 1):
+                return None
+            if t.id not in names:
+                names.append(t.id)
+        elif isinstance(st, ast.If):
+            for sub in (_assigned(st.body), _assigned(st.orelse)):
+                if sub is None:
+                    return None
+                names += [x for x in sub if x not in names]
+        else:
+            return None
+    return names
+
+
+def _returns(stmts):
+    """every path through the block ends in `return`"""
+    if not stmts:
+        return False
+    last = stmts[-1]
+    if isinstance(last, ast.Return):
+        return True
+    return isinstance(last, ast.If) and _returns(last.body) and _returns(last.orelse)
+
+
+def _tblock(stmts, env, result):
+    if not stmts:
+        return result(env)
+    st, rest = stmts[0], stmts[1:]
+    if isinstance(st, ast.Return):
+        need(st.value is not None, 'kernel: bare return')
+        return _texpr(st.value, env)
+    if isinstance(st, (ast.Assign, ast.AugAssign)):
+        tgt = st.targets[0] if isinstance(st, ast.Assign) else st.target
+        need(isinstance(tgt, ast.Name) and (isinstance(st, ast.AugAssign) or len(st.targets) == 1), 'kernel: assignment target')
+        val = st.value if isinstance(st, ast.Assign) else ast.BinOp(left=ast.Name(id=tgt.id, ctx=ast.Load()), op=st.op, right=st.value)
+        e, t = _texpr(val, env)
+        v = 'v_%s_%d' % (tgt.id, len(env))
+        env2 = dict(env); env2[tgt.id] = (v, t)
+        b, tb = _tblock(rest, env2, result)
+        return ('(let %s := %s in %s)' % (v, e, b), tb)
+    if isinstance(st, ast.If):
+        c, tc = _texpr(st.test, env)
+        need(tc == 'bool', 'kernel: if on %s' % tc)
+        if _returns(st.body):
+            a, ta = _tblock(st.body, env, result)
+            b, tb = _tblock((st.orelse or []) + rest, env, result)
+            need(ta == tb, 'kernel: branches of different types %s / %s' % (ta, tb))
+            return ('(if %s then %s else %s)' % (c, a, b), ta)
+        names = _assigned([st])
+        need(names is not None and names, 'kernel: if-block with statements other than assignments')
+        need(all(nm in env for nm in names), 'kernel: variable first assigned inside an if: %r' % (names,))
+        tys = [env[nm][1] for nm in names]
+        tup = lambda e: (e[names[0]][0] if len(names) == 1 else '(' + ', '.join(e[nm][0] for nm in names) + ')', '*'.join(tys))
+
+        def branch(body):
+            def res(e):
+                need(all(e[nm][1] == env[nm][1] for nm in names), 'kernel: a variable changes its type inside an if')
+                return tup(e)
+            return _tblock(body, env, res)[0]
+        fresh = ['v_%s_%d' % (nm, len(env)) for nm in names]
+        env2 = dict(env)
+        for nm, f, t in zip(names, fresh, tys):
+            env2[nm] = (f, t)
+        pat = fresh[0] if len(names) == 1 else "'(" + ', '.join(fresh) + ')'
+        b, tb = _tblock(rest, env2, result)
+        return ('(let %s := (if %s then %s else %s) in %s)' % (pat, c, branch(st.body), branch(st.orelse), b), tb)
+    need(False, 'kernel: statement %s' % type(st).__name__)
+
+
+def kernel(name, params, stmts, inputs=None, result=None):
+    """`Definition <name> (p : T)... : R := ...` for the statements; params = [(python name, type)], inputs = {source text: (Coq term, type)},
+    result = name of the variable (or tuple of names) yielded when the block falls through."""
+    env = {p: (p, t) for p, t in params}
+    env.update(inputs or {})
+    if result is None:
+        res = lambda e: need(False, 'kernel %s falls through without a result' % name)
+    elif isinstance(result, str):
+        res = lambda e: e[result]
+    else:
+        res = lambda e: ('(' + ', '.join(e[r][0] for r in result) + ')', ' * '.join(e[r][1] for r in result))
+    body, ty = _tblock(list(stmts), env, res)
+    args = ' '.join('(%s : %s)' % (p, t) for p, t in params)
+    return 'Definition %s %s : %s := %s.' % (name, args, ty.replace('*', ' * ') if '*' in ty and ' * ' not in ty else ty, body)
+
+
 def main(out_path):
     from ssh_audit.ssh2_kexdb import SSH2_KexDB
     from ssh_audit.ssh1_kexdb import SSH1_KexDB
@@ -497,6 +696,76 @@ def main(out_path):
                 k += 1
         w('Definition src_port_invalid_all (p : Z) : list bool := [%s].' % '; '.join('src_port_invalid_%d p' % i for i in range(k)))
     soft('port range tests (AuditConf, process_commandline, SSH_Socket)', ['C18'], ex_ports)
+    # ---- T1c kernels: decision logic translated from the source (strings, booleans, lists) ----
+    for ln in T1C_PRELUDE:
+        w(ln)
+
+    def ex_status_step():
+        # output_algorithm(): `for level, text in texts:` - the first statement of the body updates program_retval from the note's level
+        oa = func_node(t_main, 'output_algorithm')
+        loops = [n for n in ast.walk(oa) if isinstance(n, ast.For) and isinstance(n.target, ast.Tuple) and [getattr(e, 'id', None) for e in n.target.elts] == ['level', 'text']]
+        need(len(loops) == 1 and isinstance(loops[0].body[0], ast.If), 'output_algorithm: loop over (level, text) starting with the status update')
+        inputs = {'exitcodes.' + k: ('exit_' + k, 'Z') for k in ('FAILURE', 'WARNING', 'GOOD', 'CONNECTION_ERROR', 'UNKNOWN_ERROR')}
+        w(kernel('src_status_step', [('program_retval', 'Z'), ('level', 'string')], [loops[0].body[0]], inputs=inputs, result='program_retval'))
+        # no other statement of the function assigns program_retval
+        others = [n for n in ast.walk(oa) if isinstance(n, (ast.Assign, ast.AugAssign)) and any(isinstance(t, ast.Name) and t.id == 'program_retval' for t in (n.targets if isinstance(n, ast.Assign) else [n.target]))]
+        inside = [n for n in ast.walk(loops[0].body[0]) if isinstance(n, (ast.Assign, ast.AugAssign))]
+        need(all(any(x is y for y in inside) for x in others), 'output_algorithm: program_retval is assigned outside the status update')
+    soft('status update per note (output_algorithm)', ['C02'], ex_status_step)
+
+    def ex_terrapin_preds():
+        # post_process_findings(): the three _get_*_enabled helpers = a filter over the peer's list of one direction; the three _get_*_not_enabled helpers = the
+        # same name test over the database names, conjoined with `not in <enabled>`
+        dirs = {'algs.ssh2kex.client.encryption': ('enc_c', 'list string'), 'algs.ssh2kex.server.encryption': ('enc_s', 'list string'),
+                'algs.ssh2kex.client.mac': ('mac_c', 'list string'), 'algs.ssh2kex.server.mac': ('mac_s', 'list string'), 'client_audit': ('client_audit', 'bool')}
+        for short, var in (('chacha_ciphers', 'cipher'), ('cbc_ciphers', 'cipher'), ('etm_macs', 'mac')):
+            fn = func_node(pp, '_get_%s_enabled' % short)
+            body = [st for st in fn.body if not (isinstance(st, ast.Expr) and isinstance(st.value, ast.Constant))]
+            need(len(body) == 3 and isinstance(body[0], ast.Assign) and ast.unparse(body[0]) == 'ret = []' and isinstance(body[1], ast.If) and ast.unparse(body[1].test) == 'algs.ssh2kex is not None'
+                 and not body[1].orelse and isinstance(body[2], ast.Return) and ast.unparse(body[2]) == 'return ret', '_get_%s_enabled: shape' % short)
+            inner = body[1].body
+            need(len(inner) == 2 and isinstance(inner[0], ast.Assign) and isinstance(inner[0].targets[0], ast.Name) and isinstance(inner[1], ast.For), '_get_%s_enabled: list selection followed by the loop' % short)
+            lst = inner[0].targets[0].id
+            loop = inner[1]
+            need(isinstance(loop.target, ast.Name) and loop.target.id == var and ast.unparse(loop.iter) == lst and len(loop.body) == 1 and isinstance(loop.body[0], ast.If) and not loop.body[0].orelse and not loop.orelse
+                 and ast.unparse(loop.body[0].body[0]) == 'ret.append(%s)' % var and len(loop.body[0].body) == 1, '_get_%s_enabled: loop appending the names that pass one test' % short)
+            sel, tsel = _texpr(inner[0].value, dirs)
+            need(tsel == 'list string', '_get_%s_enabled: list selection' % short)
+            w('Definition src_%s_list (client_audit : bool) (enc_c enc_s mac_c mac_s : list string) : list string := %s.' % (short, sel))
+            w(kernel('src_is_%s' % short, [(var, 'string')], [ast.Return(value=loop.body[0].test)]))
+            # the database-side helper
+            fn2 = func_node(pp, '_get_%s_not_enabled' % short)
+            loops2 = [n for n in ast.walk(fn2) if isinstance(n, ast.For)]
+            need(len(loops2) == 1 and isinstance(loops2[0].target, ast.Name) and loops2[0].target.id == var and len(loops2[0].body) == 1 and isinstance(loops2[0].body[0], ast.If), '_get_%s_not_enabled: loop' % short)
+            t2 = loops2[0].body[0].test
+            need(isinstance(t2, ast.BoolOp) and isinstance(t2.op, ast.And) and len(t2.values) == 2 and ast.unparse(t2.values[1]) == '%s not in _get_%s_enabled(algs)' % (var, short), '_get_%s_not_enabled: <name test> and <not enabled>' % short)
+            w(kernel('src_is_%s_db' % short, [(var, 'string')], [ast.Return(value=t2.values[0])]))
+    soft('Terrapin name tests and direction selection (post_process_findings)', ['C04'], ex_terrapin_preds)
+
+    def ex_rank():
+        mn = func_node(t_main, 'main')
+        ifs = [n for n in ast.walk(mn) if isinstance(n, ast.If) and 'ranked_return_codes.index' in ast.unparse(n.test)]
+        need(len(ifs) == 1, 'main(): one rank comparison')
+        w(kernel('src_rank_update', [('ret', 'Z'), ('worker_ret', 'Z')], [ifs[0]], inputs={'ranked_return_codes': ('ranked_return_codes', 'list Z')}, result='ret'))
+    soft('ranked return code update (main)', ['C08'], ex_rank)
+
+    def ex_crc():
+        t_crc = ast.parse(src('ssh1_crc32.py'))
+        calc = func_node(t_crc, 'SSH1_CRC32.calc')
+        loops = [n for n in calc.body if isinstance(n, ast.For)]
+        need(len(loops) == 1 and ast.unparse(loops[0].iter) == 'range(length)' and ast.unparse(calc.body[0]) == 'crc, length = (0, len(v))' and ast.unparse(calc.body[-1]) == 'return crc' and len(calc.body) == 3, 'SSH1_CRC32.calc: shape')
+        w(kernel('src_crc_step', [('table', 'list Z'), ('crc', 'Z'), ('byte', 'Z')], loops[0].body, inputs={'ord(v[i:i + 1])': ('byte', 'Z'), 'self._table': ('table', 'list Z')}, result='crc'))
+        init = func_node(t_crc, 'SSH1_CRC32.__init__')
+        outer = [n for n in init.body if isinstance(n, ast.For)]
+        need(len(outer) == 1 and ast.unparse(outer[0].iter) == 'range(256)' and ast.unparse(outer[0].body[0]) == 'crc = 0' and ast.unparse(outer[0].body[1]) == 'n = i', 'SSH1_CRC32.__init__: outer loop')
+        inner = [n for n in outer[0].body if isinstance(n, ast.For)]
+        need(len(inner) == 1 and ast.unparse(inner[0].iter) == 'range(8)', 'SSH1_CRC32.__init__: inner loop of 8 steps')
+        steps = [st for st in inner[0].body if not (isinstance(st, ast.Assign) and isinstance(st.targets[0], ast.Subscript))]
+        stores = [st for st in inner[0].body if isinstance(st, ast.Assign) and isinstance(st.targets[0], ast.Subscript)]
+        need(len(stores) == 1 and ast.unparse(stores[0]) == 'self._table[i] = crc', 'SSH1_CRC32.__init__: table store')
+        w(kernel('src_crc_bit_step', [('crc', 'Z'), ('n', 'Z')], steps, result=('crc', 'n')))
+    soft('CRC-32 byte step and table-building bit step (SSH1_CRC32)', ['C10'], ex_crc)
+
     globals()['LAST_SOFT_FAILURES'] = soft_failures
 
     text = '\n'.join(o) + '\n'
